@@ -102,6 +102,7 @@ class EffectEngine:
         self.changed = False
         self.iterations = 0
         self.mutable_globals: Set[Tuple[str, str]] = set()
+        self.memo_stores: List[Tuple[str, str, str, str]] = []
         for f in self.funcs:
             for n in walk_local(f.node):
                 if isinstance(n, ast.Global):
@@ -325,7 +326,8 @@ class Analysis:
             return
         if isinstance(t, (ast.Attribute, ast.Subscript)):
             b = self.ev(t.value, env)
-            self.mutate(b, node, "store `%s = ...`" % norm_text(t)[:50])
+            if not self._memo_store(t):
+                self.mutate(b, node, "store `%s = ...`" % norm_text(t)[:50])
             if isinstance(t, ast.Subscript):
                 self.ev(t.slice, env)
             sn = self.fi.self_name
@@ -344,6 +346,23 @@ class Analysis:
                 env[root.id] = V(cur.S, cur.E | v.all())
             return
         raise AnalysisError("%s: effect analysis does not model assignment target %s" % (self.where(node), type(t).__name__))
+
+    def _memo_store(self, t) -> bool:
+        """the store target is a memo field of the receiver (memo.py): a hidden cache, not an observable attribute"""
+        sn = self.fi.self_name
+        if sn is None or self.fi.cls is None:
+            return False
+        base = t
+        while isinstance(base, ast.Subscript):
+            base = base.value
+        if isinstance(base, ast.Attribute) and isinstance(base.value, ast.Name) and base.value.id == sn:
+            from .memo import memo_fields
+            mf = memo_fields(self.eng.ctx)
+            for c in self.fi.cls.mro():
+                if (c.name, base.attr) in mf:
+                    self.eng.memo_stores.append((self.where(t), self.fi.short, base.attr, mf[(c.name, base.attr)]))
+                    return True
+        return False
 
     # ---- expressions
     IMMUTABLE = {"num", "bool", "str", "None", "Exc", "type"}
